@@ -349,3 +349,116 @@ Definition stream_content (src : chunk_source) (fuel : nat) (ms : mstore) (chunk
   let stop := if size =? max_int64 then total_size chunks else offset + size in
   let (out, pos) := stream_views src views offset in
   out ++ repeat 0 (N.to_nat (stop - pos)).       (* the repair: pad the tail of the range *)
+
+(* ====================================================================== *)
+(* Appended for the C17 audit (existing definitions above are unchanged).  *)
+(* ====================================================================== *)
+
+(* ---------- int64 wrap of offset+size (ViewFromChunks / ViewFromVisibleIntervals / StreamContent,
+   with the "stop < offset => MaxInt64" repair).  For offset, size <= MaxInt64 the Go sum wraps to a
+   negative number exactly when offset+size > MaxInt64, and is then replaced by MaxInt64. ---------- *)
+Definition clamp_stop (offset size : N) : N :=
+  if max_int64 <? offset + size then max_int64 else offset + size.
+
+Definition view_from_visibles_w (vs : list visible_interval) (offset size : N) : list chunk_view :=
+  flat_map (view_of offset (clamp_stop offset size)) vs.
+
+Definition view_from_chunks_w (fuel : nat) (ms : mstore) (chunks : list chunk) (offset size : N)
+  : list chunk_view :=
+  view_from_visibles_w (fst (non_overlapping_visible_intervals fuel ms chunks offset (clamp_stop offset size)))
+                       offset size.
+
+(* StreamContent for every offset, size <= MaxInt64: "to the end" when size = MaxInt64 or the sum wraps *)
+Definition stream_content_w (src : chunk_source) (fuel : nat) (ms : mstore) (chunks : list chunk)
+    (offset size : N) : list N :=
+  let views := view_from_chunks_w fuel ms chunks offset size in
+  let stop := if (size =? max_int64) || (max_int64 <? offset + size) then total_size chunks else offset + size in
+  let (out, pos) := stream_views src views offset in
+  out ++ repeat 0 (N.to_nat (stop - pos)).
+
+(* ReadAll (with the hole repair): zeros up to each view, the view's data, nothing after the last view *)
+Definition read_all (src : chunk_source) (fuel : nat) (ms : mstore) (chunks : list chunk) : list N :=
+  fst (stream_views src (view_from_chunks_w fuel ms chunks 0 max_int64) 0).
+
+(* ---------- ChunkStreamReader (stream.go; NOT repaired: holes are dropped) ---------- *)
+From Coq Require Import ZArith.
+Record csr := Csr {
+  cs_idx : nat;        (* chunkIndex *)
+  cs_buf : list N;     (* buffer *)
+  cs_boff : N;         (* bufferOffset *)
+  cs_bpos : Z          (* bufferPos (Seek can make it negative or larger than the buffer) *)
+}.
+Definition csr_new : csr := {| cs_idx := 0; cs_buf := []; cs_boff := 0; cs_bpos := 0%Z |}.
+Definition csr_empty (s : csr) : bool := (Z.of_nat (length (cs_buf s)) <=? cs_bpos s)%Z.   (* isBufferEmpty *)
+(* fetchChunkToBuffer (no fetch error) *)
+Definition csr_fetch (src : chunk_source) (w : chunk_view) (idx : nat) : csr :=
+  {| cs_idx := idx; cs_buf := fetch_view src w; cs_boff := cv_logic w; cs_bpos := 0%Z |}.
+
+Inductive csr_res := CsrOk (out : list N) (eof : bool) (s : csr) | CsrPanic.
+
+(* Read(p) with len(p) = want: the bytes copied, err == io.EOF, the reader afterwards;
+   CsrPanic = slice bounds out of range (buffer[bufferPos:] with a negative bufferPos).
+   Every iteration either fetches the next view or copies at least one byte: fuel = want + #views + 1. *)
+Fixpoint csr_read_loop (fuel : nat) (src : chunk_source) (views : list chunk_view) (s : csr) (want : nat) : csr_res :=
+  match want with
+  | O => CsrOk [] false s
+  | S _ =>
+    match fuel with
+    | O => CsrPanic
+    | S f =>
+      if csr_empty s then
+        match nth_error views (cs_idx s) with
+        | None => CsrOk [] true s
+        | Some w => csr_read_loop f src views (csr_fetch src w (S (cs_idx s))) want
+        end
+      else if (cs_bpos s <? 0)%Z then CsrPanic
+      else
+        let t := firstn want (skipn (Z.to_nat (cs_bpos s)) (cs_buf s)) in
+        match csr_read_loop f src views
+                {| cs_idx := cs_idx s; cs_buf := cs_buf s; cs_boff := cs_boff s;
+                   cs_bpos := (cs_bpos s + Z.of_nat (length t))%Z |} (want - length t) with
+        | CsrOk o e s' => CsrOk (t ++ o) e s'
+        | CsrPanic => CsrPanic
+        end
+    end
+  end.
+Definition csr_read (src : chunk_source) (views : list chunk_view) (s : csr) (want : nat) : csr_res :=
+  csr_read_loop (want + length views + 1) src views s want.
+
+(* Seek(offset, whence): whence 0 = io.SeekStart, 1 = io.SeekCurrent, 2 = io.SeekEnd.
+   Returns (new offset, err == io.ErrUnexpectedEOF, reader afterwards). *)
+Definition csr_total (views : list chunk_view) : N := fold_right (fun w a => cv_size w + a) 0 views.
+(* the range loop of Seek: the first view that covers offset AND needs a fetch ends the loop; a covering
+   view whose data is already buffered does not (the loop goes on, later views are examined too) *)
+Fixpoint csr_seek_loop (src : chunk_source) (views : list chunk_view) (i : nat) (offset : Z) (s : csr) : csr :=
+  match views with
+  | [] => s
+  | w :: r => if (Z.of_N (cv_logic w) <=? offset)%Z && (offset <? Z.of_N (cv_logic w + cv_size w))%Z
+                 && (csr_empty s || negb (cs_boff s =? cv_logic w))
+              then csr_fetch src w (S i)
+              else csr_seek_loop src r (S i) offset s
+  end.
+Definition csr_seek (src : chunk_source) (views : list chunk_view) (s : csr) (offset : Z) (whence : N)
+  : Z * bool * csr :=
+  let total := Z.of_N (csr_total views) in
+  let off := match whence with
+             | 0 => offset
+             | 1 => (offset + Z.of_N (cs_boff s) + cs_bpos s)%Z
+             | _ => (total + offset)%Z
+             end in
+  let s1 := csr_seek_loop src views 0 off s in
+  (off, (total <? off)%Z,
+   {| cs_idx := cs_idx s1; cs_buf := cs_buf s1; cs_boff := cs_boff s1; cs_bpos := (off - Z.of_N (cs_boff s1))%Z |}).
+
+(* the views are contiguous from [pos]: no hole before, between or (by definition) inside them *)
+Fixpoint views_gapless (pos : N) (ws : list chunk_view) : bool :=
+  match ws with
+  | [] => true
+  | w :: r => (cv_logic w =? pos) && views_gapless (cv_logic w + cv_size w) r
+  end.
+
+(* ---------- CompactFileChunks as the callers use it: SeparateManifestChunks first ---------- *)
+Definition compact_entry (fuel : nat) (ms : mstore) (chunks : list chunk) : list chunk * list chunk :=
+  let data := filter (fun c => negb (c_manifest c)) chunks in
+  let (keep, garbage) := compact_file_chunks fuel ms data in
+  (filter c_manifest chunks ++ keep, garbage).
